@@ -144,12 +144,57 @@ def bootGuard (j : Json) : R Json := do
   pure (obj [("runs", ofList (fun s => Json.bool (bootcvRuns (s.getD 0 0) kr (s.getD 1 0) kp)) samples),
              ("cv_nc", Json.bool (internalCvUsesCvNc kr kp))])
 
+/-! round 4: sessions.  The state is the content of the one RDMs object (`rG`, `rIdx`, `pG`, `pIdx`:
+    descriptor codes; `dis`), steps are generator calls (their arguments and recorded shuffle outcomes;
+    `rby` / `pby` name the descriptor in use), user edits (fields of the state replaced) or `noop`.
+    The session is executed by `runSteps` with the as-coded call effect (`callEffect`, from the
+    source-derived write count); an in-place write would wipe the content (`wr`), so that every later
+    call fails. -/
+
+def setFields (s : Json) (kvs : List (String × Json)) : Json :=
+  kvs.foldl (fun acc kv => acc.setObjVal! kv.1 kv.2) s
+
+def sessionCall (c s : Json) : R Json := do
+  let rby ← fld c "rby" >>= asStr
+  let pby ← fld c "pby" >>= asStr
+  let rdesc ← fld s (if rby == "g" then "rG" else "rIdx")
+  let pdesc ← fld s (if pby == "g" then "pG" else "pIdx")
+  let dis := fldD s "dis" Json.null
+  sets (setFields c [("rdesc", rdesc), ("pdesc", pdesc), ("dis", dis)])
+
+def session (j : Json) : R Json := do
+  let s0 ← fld j "state"
+  let stepsJ ← fld j "steps" >>= asArr
+  let steps : List (Step Json Json) ← stepsJ.mapM fun st =>
+    match st.getObjVal? "call", st.getObjVal? "edit" with
+    | .ok c, _ => pure (Step.call c)
+    | _, .ok e => do
+      let kvs ← match e with
+        | Json.obj m => pure (m.toList)
+        | _ => throw "edit is not an object"
+      pure (Step.edit fun s => setFields s kvs)
+    | _, _ => pure (Step.edit id)
+  let out := runSteps (callEffect fun _ _ => Json.mkObj []) sessionCall steps s0
+  -- per step: the call's answer (null for edits) and whether the call left the content unchanged
+  let rec go (prev : Json) : List (Option (R Json) × Json) → R (List Json)
+    | [] => pure []
+    | (r, s) :: rest => do
+      let a ← match r with
+        | none => pure Json.null
+        | some (.ok v) => pure v
+        | some (.error e) => pure (obj [("model_error", Json.str e)])
+      let tail ← go s rest
+      pure (obj [("res", a), ("content_unchanged", Json.bool (r.isNone || s == prev))] :: tail)
+  let l ← go s0 out
+  pure (Json.arr l.toArray)
+
 def handle : Handler := fun op j =>
   match op with
   | "c05.sets" => some (sets j)
   | "c05.concat" => some (concat j)
   | "c05.default_k" => some (defaultK j)
   | "c05.boot_guard" => some (bootGuard j)
+  | "c05.session" => some (session j)
   | _ => none
 
 end Rsa.Drv.C05
